@@ -340,6 +340,14 @@ type c20HistCase struct {
 	Note  string    `json:"note,omitempty"`
 }
 
+// c20ProbeClass is the input class used in failure signatures.
+func c20ProbeClass(c c20Call) string {
+	if c.Kind == "encode" {
+		return "reflective-encode"
+	}
+	return "direct-calls"
+}
+
 func c20Describe(c c20Call) string {
 	switch c.Kind {
 	case "prog":
@@ -385,9 +393,9 @@ func c20CheckHistory(c *h.Ctx, hc c20HistCase) ([]c20Call, []c20Obs) {
 	case len(obs[n+1].Bytes) != 0:
 		c.Fail("C20/clear-keeps-buffer/"+hc.Kind+"/"+after, fmt.Sprintf("%d bytes left in a %s encoder after Clear", len(obs[n+1].Bytes), hc.Kind), hc)
 	case obs[n+2].Class != fresh[0].Class:
-		c.Fail("C20/reused-encoder-differs/"+hc.Kind+"/"+c20Describe(hc.Probe), fmt.Sprintf("on a cleared %s encoder (%s) the call ends with %s, on a fresh one with %s", hc.Kind, after, obs[n+2].Class, fresh[0].Class), hc)
+		c.Fail("C20/reused-encoder-differs/"+hc.Kind+"/"+c20ProbeClass(hc.Probe), fmt.Sprintf("on a cleared %s encoder (%s) the call ends with %s, on a fresh one with %s", hc.Kind, after, obs[n+2].Class, fresh[0].Class), hc)
 	case !bytes.Equal(obs[n+3].Bytes, fresh[1].Bytes):
-		c.Fail("C20/reused-encoder-differs/"+hc.Kind+"/"+c20Describe(hc.Probe), fmt.Sprintf("a cleared %s encoder (%s) produced %d bytes that differ from the %d bytes of a fresh encoder", hc.Kind, after, len(obs[n+3].Bytes), len(fresh[1].Bytes)), hc)
+		c.Fail("C20/reused-encoder-differs/"+hc.Kind+"/"+c20ProbeClass(hc.Probe), fmt.Sprintf("a cleared %s encoder (%s) produced %d bytes that differ from the %d bytes of a fresh encoder", hc.Kind, after, len(obs[n+3].Bytes), len(fresh[1].Bytes)), hc)
 	}
 	return full, obs
 }
@@ -403,6 +411,78 @@ func c20CheckNoClear(c *h.Ctx, first, second c20Call) {
 	}
 	if obs[2].Class != fresh[0].Class || !bytes.Equal(obs[3].Bytes, append(append([]byte{}, obs[1].Bytes...), fresh[1].Bytes...)) {
 		c.Fail("C20/version-flows-across-messages/"+c20Describe(second), "a message carrying its own version is encoded differently after "+c20Describe(first)+" on the same (uncleared) encoder", cs)
+	}
+}
+
+// ---------------------------------------------------------------- new objects after other messages
+
+type c20Probe struct {
+	name string
+	run  func() c20MsgOut
+}
+
+func c20GuardOut(f func() c20MsgOut) (o c20MsgOut) {
+	defer func() {
+		if recover() != nil {
+			o = c20MsgOut{Class: "panic"}
+		}
+	}()
+	return f()
+}
+
+// c20FreshProbes: calls on NEW encoders / decoders whose result depends on the version the
+// object holds (none, for a new object).
+func c20FreshProbes() []c20Probe {
+	old := c20SynMarshal("ttlv", 0x540500, c20GatedOld{B: "b", F: 1})
+	nw := c20SynMarshal("ttlv", 0x540500, c20GatedNew{A: 2, D: &c20Leafs{I: 3}, F: 4})
+	dec := func(in []byte) func() c20MsgOut {
+		return func() c20MsgOut {
+			var g c20Gated
+			if err := c20SynUnmarshal("ttlv", 0x540500, append([]byte{}, in...), &g); err != nil {
+				return c20MsgOut{Class: "err"}
+			}
+			return c20MsgOut{Class: "ok", Bytes: []byte(fmt.Sprintf("%+v", g))}
+		}
+	}
+	return []c20Probe{
+		{"decode-1.0-shaped-value", dec(old)},
+		{"decode-1.4-shaped-value", dec(nw)},
+		{"encode-gated-value", func() c20MsgOut {
+			return c20MsgOut{Class: "ok", Bytes: c20SynMarshal("ttlv", 0x540500, c20Gated{A: 1, B: "b", C: 2, D: &c20Leafs{I: 3}, E: []int32{4}, F: 5})}
+		}},
+	}
+}
+
+// c20CheckFreshObjects: the probes give the same result on new objects before and after
+// messages of several versions went through other encoders and decoders.
+func c20CheckFreshObjects(c *h.Ctx, refs []c20MsgOut) {
+	probes := c20FreshProbes()
+	check := func(after string) {
+		for i, p := range probes {
+			got := c20GuardOut(p.run)
+			if got.Class != refs[i].Class || !bytes.Equal(got.Bytes, refs[i].Bytes) {
+				what := "C20/new-encoder-sees-earlier-message"
+				if strings.HasPrefix(p.name, "decode") {
+					what = "C20/new-decoder-sees-earlier-message"
+				}
+				c.Fail(what, fmt.Sprintf("%s on a new object: %s (%d bytes) after %s, %s (%d bytes) at process start", p.name, got.Class, len(got.Bytes), after, refs[i].Class, len(refs[i].Bytes)), map[string]any{"mode": "fresh-objects", "probe": p.name, "after": after})
+			}
+		}
+	}
+	for _, v := range c20VerPool {
+		m := c20Msg{H: c20Hdr{V: c20Ver{v[0], v[1]}}, Items: []c20Gated{{F: 1}}}
+		after := fmt.Sprintf("a version %d.%d message", v[0], v[1])
+		var in []byte
+		_ = c20GuardOut(func() c20MsgOut { in = c20SynMarshal("ttlv", 0x540501, m); return c20MsgOut{} })
+		check(after + " was encoded")
+		_ = c20GuardOut(func() c20MsgOut {
+			var d c20Hdr
+			hb := c20SynMarshal("ttlv", 0x540502, m.H)
+			_ = c20SynUnmarshal("ttlv", 0x540502, hb, &d)
+			return c20MsgOut{}
+		})
+		check(after + " was decoded")
+		_ = in
 	}
 }
 
@@ -589,7 +669,7 @@ func c20CheckSched(c *h.Ctx, sc c20SchedCase) ([][]c20MsgOut, []int) {
 		for k, m := range w {
 			ref := c20RefSyn(sc.Dir, m, inputs)
 			if ref.Class != out[i][k].Class || !bytes.Equal(ref.Bytes, out[i][k].Bytes) {
-				c.Fail("C20/schedule-dependent-result/"+sc.Dir+"/"+c20Roots[m.Root].String(),
+				c.Fail("C20/schedule-dependent-result/"+sc.Dir,
 					fmt.Sprintf("thread %d message %d (%s): %s/%d bytes under the schedule, %s/%d bytes alone on cold caches", i, k, c20Roots[m.Root], out[i][k].Class, len(out[i][k].Bytes), ref.Class, len(ref.Bytes)), sc)
 			}
 		}
@@ -639,12 +719,25 @@ func driveC20(c *h.Ctx) error {
 		"corpus messages and harness values, encode and decode, TTLV/XML/JSON/text; a case is non-trivial unless it consists of Clear/Bytes only; " +
 		"distinct by canonical JSON of the case")
 	c20Register()
+	// first codec calls of the process: the reference for "new objects" below
+	var freshRefs []c20MsgOut
+	for _, p := range c20FreshProbes() {
+		freshRefs = append(freshRefs, c20GuardOut(p.run))
+	}
 	tt := c20AllTypes()
 	byName := ttlv.VerifRegistryDump().TagByName
 	if c.Replay != nil {
+		if m, _ := c.Replay["case"].(map[string]any); m != nil && m["mode"] == "fresh-objects" {
+			c20CheckFreshObjects(c, freshRefs)
+			c.Eval("fresh-objects", true)
+			return nil
+		}
 		c20Replay(c, tt)
 		return nil
 	}
+	c20CheckFreshObjects(c, freshRefs)
+	c.Eval("fresh-objects", true)
+	c.Count("fresh-objects-probes")
 
 	em := &c20Emit{names: map[string]string{}, budget: c.Pick(900_000, 6_000_000)}
 	var histRows []string
@@ -854,20 +947,32 @@ func driveC20(c *h.Ctx) error {
 	// ---- decode twice from the same buffer (corpus)
 	corpus := c20CorpusFor(c)
 	c.Extra("corpus_messages", len(corpus))
-	if len(corpus) == 0 {
+	if len(corpus) == 0 && c.NumFailures() == 0 {
 		return fmt.Errorf("no corpus message could be loaded from %s/kmiptest/testdata", c.Repo)
 	}
-	for i := 0; i < c.Pick(300, 3000); i++ {
-		idx := c.Rng.Fork(uint64(90000 + i)).Intn(len(corpus))
-		c20CheckDecodeTwice(c, corpus, idx)
-		c.Eval(fmt.Sprintf("decode-twice:%d", idx), true)
-		c.Count("decode-twice")
-	}
+	var childRows []string
+	var childCases []any
+	if len(corpus) == 0 {
+		// the codec is already known to misbehave (failures above) to the point that the
+		// library's own test vectors cannot be read back: nothing to feed to the children
+		c.Extra("corpus", "unusable: the OASIS vectors no longer load with the codec under test")
+	} else {
+		for i := 0; i < c.Pick(300, 3000); i++ {
+			idx := c.Rng.Fork(uint64(90000 + i)).Intn(len(corpus))
+			c20CheckDecodeTwice(c, corpus, idx)
+			c.Eval(fmt.Sprintf("decode-twice:%d", idx), true)
+			c.Count("decode-twice")
+		}
 
-	// ---- (d) child processes
-	childRows, childCases, err := c20Children(c, tt, corpus)
-	if err != nil {
-		return err
+		// ---- (d) child processes
+		var err error
+		childRows, childCases, err = c20Children(c, tt, corpus)
+		if err != nil {
+			if c.NumFailures() == 0 {
+				return err
+			}
+			c.Extra("children", "aborted: "+err.Error())
+		}
 	}
 	for i, row := range childRows {
 		if !em.room(len(row)) {
@@ -971,7 +1076,7 @@ func c20Compare(c *h.Ctx, what string, cc c20ChildCase, ref, out *c20ChildOut) {
 				t := cc.Tasks[i]
 				// a replayable case: the reference task list cut down to what is needed is
 				// not attempted; the whole scenario is small enough
-				c.Fail("C20/"+what+"/"+c20TaskName(t), fmt.Sprintf("%s: goroutine %d task %d (%s): %s/%s, sequential fresh process: %s/%s", what, g, i, c20TaskName(t), r.Class, r.Digest, want.Class, want.Digest), cc)
+				c.Fail("C20/"+what+"/"+t.Op+"/"+t.Enc, fmt.Sprintf("%s: goroutine %d task %d (%s): %s/%s, sequential fresh process: %s/%s", what, g, i, c20TaskName(t), r.Class, r.Digest, want.Class, want.Digest), cc)
 				return
 			}
 		}
@@ -998,6 +1103,17 @@ func c20BuildTasks(c *h.Ctx, r *h.Rand, corpus []c20CorpusMsg, nk, ns int) []c20
 		if in != nil {
 			tasks = append(tasks, c20Task{Kind: "kmip", Op: "dec", Enc: de, Resp: m.Resp, In: in})
 		}
+	}
+	for i := 0; i < ns/4+2; i++ {
+		// wire forms of a c20Gated under an old / a new version, decoded into c20Gated by a new decoder
+		tag := 0x540400 + r.Intn(4)
+		var in []byte
+		if r.Bool() {
+			in = c20SynMarshal("ttlv", tag, c20GatedOld{B: c20SafeString(r, 6), F: int32(r.Intn(100))})
+		} else {
+			in = c20SynMarshal("ttlv", tag, c20GatedNew{A: int32(r.Intn(100)), F: int32(r.Intn(100))})
+		}
+		tasks = append(tasks, c20Task{Kind: "syn", Op: "dec", Enc: "ttlv", Root: 3, Tag: tag, In: in})
 	}
 	for i := 0; i < ns; i++ {
 		root := r.Intn(len(c20Roots))
